@@ -10,6 +10,7 @@ for r in rows:
     tbl+="| `seeded/%s` | %s | %s | %s | %s |\n"%r
 n=len(rows); first=sum(1 for r in rows if r[2]=='detected')
 missed=[r[0] for r in rows if r[2].startswith('not detected')]
+cross=sum(1 for r in rows if r[2].startswith('detected by ') or r[2].startswith('detected only by'))
 missed_txt="None is left undetected." if not missed else ("Not detected: "+", ".join("`seeded/%s`"%m for m in missed)+" (the reason is in its row and in section 9).")
 sec=f'''## 11. Seeded breaking changes and which checks catch them
 
@@ -20,10 +21,13 @@ and had to supply a demonstration test that fails with the change and passes
 without it. Each was confirmed in the scratch worktree (existing suite passes,
 demonstration fails with / passes without the change), then applied to /repo,
 checked with `./check <id> quick`, and undone. Patch, demonstration and
-`meta.json` are kept under `/verif/seeded/<id>-<n>/`. {n} changes so far; {first}
-were caught by the checks as they stood, the others only after the check was
-strengthened ("detected after ..." says what was missing; nothing was loosened
-to get there). {missed_txt}
+`meta.json` are kept under `/verif/seeded/<id>-<n>/`. {n} changes in eleven
+rounds (the later rounds came with a hint: files not yet touched, options and
+unusual API use, unusual broker behaviour, two application goroutines); {first}
+were caught by the checks as they stood, {cross} only by the check of another
+property ("detected by ..."), the others only after the check was strengthened
+("detected after ..." says what was missing; nothing was loosened to get
+there). {missed_txt}
 
 {tbl}
 Hand-made one-line mutations used while building (not kept as files): PUBACK
